@@ -22,9 +22,10 @@ import (
 // non-termination under a schedule, not slowness.
 const StepBudget = 3_000_000
 
-// MaxSoloGets: a call that alone makes more pool requests than this (a sweep that keeps splitting
-// segments for seconds) is too expensive to simulate usefully; the run is discarded and counted.
-const MaxSoloGets = 300_000
+// MaxSoloGets: a call that alone passes more decision points (pool, lock, once, map and atomic
+// operations, yield sites) than this - a sweep that keeps splitting segments for seconds - is too
+// expensive to simulate usefully; the run is discarded and counted.
+const MaxSoloGets = 1_000_000
 
 // Harness holds what is constant over a worker's life.
 type Harness struct {
@@ -35,6 +36,10 @@ type Harness struct {
 	NSites      int
 	soloGets    []int // pool requests of each task's calls when run alone (last solo pass)
 	maxSoloGets int
+	// SimulatedReference: run the reference executions under the simulator too (one task, pools
+	// that never recycle). Needed when the code under test starts goroutines of its own: with real
+	// goroutines the "alone" result would itself depend on the Go scheduler.
+	SimulatedReference bool
 	// QuiescenceWait is testing/synctest.Wait when running inside a bubble (see simrt.SetQuiescenceWait).
 	QuiescenceWait func()
 	// Progress is updated before each phase (read by the CPU watchdog).
@@ -121,12 +126,47 @@ func (h *Harness) solo(spec *RunSpec, seedOf func(t int) uint64, only [][]bool) 
 			}
 			simrt.ResetRangeCounts()
 			simrt.SetSoloOrder(order)
-			ssync.SoloGets = 0
-			res[t][s] = ExecStep(env, &spec.Tasks[t].Steps[s])
-			if ssync.SoloGets > h.maxSoloGets {
-				h.maxSoloGets = ssync.SoloGets
+			ssync.ResetSoloGets()
+			simrt.ResetSoloOps()
+			exec := func() {
+				if spec.Tasks[t].Steps[s].Op == "renderdrawn" {
+					// alone = this task's latest draw call, then the render
+					for k := s - 1; k >= 0; k-- {
+						if spec.Tasks[t].Steps[k].Op == "draw" {
+							ExecStep(env, t, &spec.Tasks[t].Steps[k])
+							break
+						}
+					}
+				}
+				res[t][s] = ExecStep(env, t, &spec.Tasks[t].Steps[s])
 			}
-			h.soloGets[t] += ssync.SoloGets
+			var ref *simrt.Sim
+			if h.SimulatedReference {
+				cfg := simrt.Config{Seed: simrt.Mix(spec.RunSeed, 0x5010, uint64(t), uint64(s)), Sched: simrt.SchedSticky, StayProb: 0.9, PoolFresh: 1, LivePct: 100,
+					StepBudget: []int{StepBudget}}
+				simrt.SetLiveSites(nil)
+				ref = simrt.New(cfg, 1, []uint64{0}, false)
+				ref.SetOrder(0, order)
+				if h.QuiescenceWait != nil {
+					ref.SetQuiescenceWait(h.QuiescenceWait)
+				}
+				simrt.CountGets(true)
+				ref.Run([]func(){exec})
+				simrt.CountGets(false)
+				if len(ref.Stats().Leaked) > 0 {
+					res[t][s] = Result{Kind: "abort", Hash: 99, Brief: "blocked forever when run alone"}
+				}
+			} else {
+				exec()
+			}
+			ops := simrt.SoloOps()
+			if h.SimulatedReference && ref != nil {
+				ops = ref.Stats().Events
+			}
+			if ops > h.maxSoloGets {
+				h.maxSoloGets = ops
+			}
+			h.soloGets[t] += ops
 			simrt.SetSoloOrder(nil)
 			_, m := simrt.RangeCounts()
 			multi[t][s] = m > 0
@@ -175,7 +215,7 @@ func (h *Harness) Execute(spec *RunSpec) (*RunReport, *Outcome, error) {
 	rep.RefCPUms = cpuMS() - cpu0
 	soloGets := append([]int(nil), h.soloGets...)
 	if h.maxSoloGets > MaxSoloGets {
-		rep.Discarded = fmt.Sprintf("a call makes %d pool requests when run alone (limit %d)", h.maxSoloGets, MaxSoloGets)
+		rep.Discarded = fmt.Sprintf("a call passes %d decision points when run alone (limit %d)", h.maxSoloGets, MaxSoloGets)
 		rep.Stats = &simrt.Stats{ByKind: map[string]int{}}
 		rep.CPUms = cpuMS() - cpu0
 		return rep, out, nil
@@ -233,6 +273,7 @@ func (h *Harness) Execute(spec *RunSpec) (*RunReport, *Outcome, error) {
 	if err != nil {
 		return nil, nil, err
 	}
+	env.Drawn = make([]*drawn, len(spec.Tasks)) // sized up front: tasks only write their own slot
 	if !spec.ColdStart {
 		// warm process: the pools exist already (initialised by an earlier call)
 		canvas.Rectangle(1, 1).Settle(canvas.NonZero)
@@ -243,10 +284,7 @@ func (h *Harness) Execute(spec *RunSpec) (*RunReport, *Outcome, error) {
 		// about a third of the decision points of a sweep), capped
 		cfg.StepBudget = make([]int, len(spec.Tasks))
 		for i := range cfg.StepBudget {
-			b := 200_000 + 40*soloGets[i]
-			if b > StepBudget {
-				b = StepBudget
-			}
+			b := 200_000 + 20*soloGets[i]
 			cfg.StepBudget[i] = b
 		}
 	}
@@ -275,7 +313,7 @@ func (h *Harness) Execute(spec *RunSpec) (*RunReport, *Outcome, error) {
 		bodies[t] = func() {
 			for s := range spec.Tasks[t].Steps {
 				simrt.StepMark()
-				r := ExecStep(env, &spec.Tasks[t].Steps[s])
+				r := ExecStep(env, t, &spec.Tasks[t].Steps[s])
 				res[t][s] = r
 				if r.Kind == "abort" {
 					return
@@ -375,7 +413,7 @@ var digits = regexp.MustCompile(`[0-9]+`)
 // opSig is the operation class used in violation signatures.
 func opSig(st *Step) string {
 	switch st.Op {
-	case "render":
+	case "render", "renderdrawn":
 		return "render/" + st.Format
 	case "and", "or", "xor", "not", "div":
 		return "boolean"
